@@ -170,6 +170,58 @@ func c18Check(root string, doc []byte) (res fw.Result) {
 			}
 		}
 	}
+	// addresses derived with the relative-resolution functions from the
+	// addresses of listed packages: whatever those functions hand out must
+	// not lead a lookup out of the root either
+	climbs := []string{"../x", "../..", "../../../etc/passwd", "./a/../../x", "../", "./../../outside"}
+	checkDerived := func(what string, src sourceaddrs.FinalSource) *fw.Result {
+		var lp string
+		var lerr error
+		if pn, pv := fw.Try(func() { lp, lerr = b.LocalPathForSource(src) }); pn {
+			r := viol("lookup-panic", "LocalPathForSource(%s) panicked: %s", src, pv)
+			return &r
+		}
+		res.Evals++
+		if lerr == nil && !inside(lp) {
+			r := viol("lookup-outside-root", "%s = %s, whose lookup returned %q, not inside the bundle root %q", what, src, lp, absRoot)
+			return &r
+		}
+		return nil
+	}
+	for _, pkg := range b.RemotePackages() {
+		for _, baseSub := range []string{"", "a"} {
+			for _, c := range climbs {
+				rel, err := sourceaddrs.ParseLocalSource(c)
+				if err != nil {
+					continue
+				}
+				if got, err := sourceaddrs.ResolveRelativeFinalSource(pkg.SourceAddr(baseSub), rel); err == nil {
+					if r := checkDerived(fmt.Sprintf("ResolveRelativeFinalSource(%s, %s)", pkg.SourceAddr(baseSub), c), got); r != nil {
+						return *r
+					}
+				}
+			}
+		}
+	}
+	for _, rp := range b.RegistryPackages() {
+		for _, v := range b.RegistryPackageVersions(rp) {
+			rs, err := sourceaddrs.ParseRegistrySource(rp.String())
+			if err != nil {
+				continue
+			}
+			for _, c := range climbs {
+				rel, err := sourceaddrs.ParseLocalSource(c)
+				if err != nil {
+					continue
+				}
+				if got, err := sourceaddrs.ResolveRelativeFinalSource(rs.Versioned(v), rel); err == nil {
+					if r := checkDerived(fmt.Sprintf("ResolveRelativeFinalSource(%s@%s, %s)", rp, v, c), got); r != nil {
+						return *r
+					}
+				}
+			}
+		}
+	}
 	// inverse property for paths inside package directories
 	cwd, _ := os.Getwd()
 	for d := range dirs {
